@@ -64,11 +64,11 @@ PLAN = {
     "C06": (["pow2", "pow2:checked", "radix", "compact+radix", "radix+format"], ["compact+pow2", "pow2+format", "compact+radix+format", "radix+nostd"]),
     "C07": (["radix", "compact+radix", "radix+format", "radix+format:checked", "radix+nostd"], ["compact+radix+format", "compact+radix+nostd"]),
     "C08": (["default", "compact", "radix", "format", "radix+format"], ["pow2", "compact+radix+format", "pow2+format"]),
-    "C09": (["default", "compact", "compact:checked", "pow2", "pow2:checked", "format", "radix+format", "radix+format:checked"], ["compact+radix+format", "default:checked", "radix", "compact+radix+format:checked", "compact+format"]),
+    "C09": (["default", "compact", "compact:checked", "pow2", "pow2:checked", "format", "radix+format", "radix+format:checked"], ["compact+radix+format", "default:checked", "radix", "compact+radix+format:checked", "compact+format", "radix+nostd:checked"]),
     "C10": (["default", "default:checked", "pow2:checked", "radix+format", "radix+format:checked", "compact+radix+format"], ["compact", "compact:checked", "format", "compact+radix+format:checked", "radix", "pow2+format"]),
     "C11": (["default", "compact", "radix+format", "compact+radix+format"], ["format", "radix", "pow2+format"]),
     "C12": (["format", "radix+format", "compact+radix+format"], ["pow2+format", "compact+format"]),
-    "C13": (["radix+format", "format", "compact+radix+format"], ["pow2+format", "compact+format"]),
+    "C13": (["radix+format", "radix+format:checked", "format", "compact+radix+format"], ["pow2+format", "compact+format"]),
     "C14": (["default", "compact", "compact:checked", "radix+format", "radix+format:checked"], ["pow2", "radix", "compact+radix+format", "format"]),
     "C15": (["default", "format", "radix+format", "radix+format:checked", "compact+radix+format"], ["compact", "radix", "pow2+format"]),
     "C16": (["default", "nostd", "compact", "compact+nostd", "pow2", "radix", "format", "radix+format", "compact+radix+format"], ["compact+format", "pow2+format", "compact+pow2", "compact+radix", "compact+pow2+format", "pow2+nostd", "radix+nostd", "format+nostd", "compact+format+nostd", "pow2+format+nostd", "radix+format+nostd", "compact+pow2+nostd", "compact+radix+nostd", "compact+pow2+format+nostd", "compact+radix+format+nostd"]),
